@@ -450,9 +450,20 @@ pub(crate) fn run(opts: &Opts, report: &mut Report) {
         .enumerate()
         .flat_map(|(i, it)| it.seeds.iter().map(move |s| (i, *s)))
         .collect();
-    let n = work.len();
+    // + the request grid of C01 in honest-only mode: the honest answer to every request of the
+    // grid (boundary and samples on / next to block totals) must be accepted
+    let grid_cfgs: Vec<(bool, u64)> = if thorough { vec![(true, 2), (false, 2), (true, 3), (false, 3)] } else { vec![(true, 2), (false, 2)] };
+    const GRID_SLICES: usize = 4;
+    let n_scen = work.len();
+    let n = n_scen + grid_cfgs.len() * GRID_SLICES;
     let worker = crate::verif::props::shard::run("C05", opts, report, n, 16, |w, report| {
         let env = Env::dummy();
+        if w >= n_scen {
+            let g = w - n_scen;
+            let (constant, last_n) = grid_cfgs[g / GRID_SLICES];
+            crate::verif::props::c01::request_grid(&env, report, constant, last_n, (g % GRID_SLICES, GRID_SLICES), thorough, true);
+            return;
+        }
         let all = items(thorough);
         let (ii, seed) = work[w];
         let item = &all[ii];
